@@ -94,6 +94,9 @@ func (c *Coordinator) give(h int, rest []workItem, st *HarnessStats) {
 	defer c.mu.Unlock()
 	c.active--
 	c.stats[h].merge(st)
+	if c.cfg.Verbose || os.Getenv("VSYM_PROGRESS") != "" {
+		fmt.Fprintf(os.Stderr, "[%s] paths=%d viol=%d queue=%d rest=%d\n", c.specs[h].Name, c.stats[h].Paths, len(c.stats[h].Violations), len(c.queue), len(rest))
+	}
 	if c.cfg.StopOnFirst && len(st.Violations) > 0 {
 		// keep exploring other harnesses but drop this one's remaining work
 		rest = nil
